@@ -8,9 +8,10 @@ import random
 import streamlib as sl
 from vlib import build_lib
 
-THEOREMS = ["C11_fast_stream", "C11_continue_decodes", "C11_hist_prelude", "C11_hist_write_block", "C11_hist_saveDict", "C11_renorm", "C11_shift", "C11_hc_mid_stream", "C11_hc_mid_continue", "C11_hc_mid_decodes", "C11_hc_mid_write_block", "C11_hc_mid_saveDict", "C11_hc_chain_stream", "C11_hc_chain_continue", "C11_hc_chain_decodes", "C11_hc_chain_write_block", "C11_hc_chain_saveDict"]
+THEOREMS = ["C11_fast_stream", "C11_continue_decodes", "C11_hist_prelude", "C11_hist_write_block", "C11_hist_saveDict", "C11_renorm", "C11_shift", "C11_hc_mid_stream", "C11_hc_mid_continue", "C11_hc_mid_decodes", "C11_hc_mid_write_block", "C11_hc_mid_saveDict", "C11_hc_chain_stream", "C11_hc_chain_continue", "C11_hc_chain_decodes", "C11_hc_chain_write_block", "C11_hc_chain_saveDict", "C11_hc_opt_stream", "C11_hc_opt_continue", "C11_hc_opt_decodes", "C11_hc_opt_write_block", "C11_hc_opt_saveDict"]
 ORACLES = ["stream"]
-CORRESPONDENCE = ["Model.HcChainStream (HC levels 3-9, the same API functions with their strat != lz4mid branches: LZ4HC_Insert in loadDictHC and setExternalDict, LZ4HC_clearTables, LZ4HC_compress_hashChain with nbSearches of the level, dictCtx copied / detached; histories that stay inside the hash-chain strategy) == lib/lz4hc.c: return value, consumed, bytes, md5 of the whole hashTable and of the chainTable, nextToUpdate, end/prefixStart/dictStart (arena addresses), dictLimit/lowLimit, level, dirty, dictCtx null/non-null after EVERY mirrored call; a change of strategy inside a history, levels >= 10 and the dictionary-context search LZ4HC_searchExtDict are outside the model (state re-imported afterwards)",
+CORRESPONDENCE = ["Model.HcOptStream = Model.HcTabStream (the streaming layer of HcChainStream, parametric in the block compressor) instantiated with the compressor of the level (LZ4HC_compress_hashChain 3-9, LZ4HC_compress_optimal 10-12 with nbSearches / targetLength / ultra / favorDecSpeed; LZ4_favorDecompressionSpeed; histories may change strategy chain <-> opt) == lib/lz4hc.c: return value, consumed, bytes, md5 of hashTable and chainTable, nextToUpdate, end/prefixStart/dictStart, dictLimit/lowLimit, level, dirty, favorDecSpeed, dictCtx null/non-null after EVERY mirrored call; level 10-12 calls on more than streamlib.OPT_MODEL_MAX input bytes are not mirrored (extracted optimal parser too slow): direct oracles, state re-imported afterwards",
+                  "Model.HcChainStream (HC levels 3-9, the same API functions with their strat != lz4mid branches: LZ4HC_Insert in loadDictHC and setExternalDict, LZ4HC_clearTables, LZ4HC_compress_hashChain with nbSearches of the level, dictCtx copied / detached; histories that stay inside the hash-chain strategy) == lib/lz4hc.c: return value, consumed, bytes, md5 of the whole hashTable and of the chainTable, nextToUpdate, end/prefixStart/dictStart (arena addresses), dictLimit/lowLimit, level, dirty, dictCtx null/non-null after EVERY mirrored call; a change of strategy inside a history, levels >= 10 and the dictionary-context search LZ4HC_searchExtDict are outside the model (state re-imported afterwards)",
                   "Model.HcMidStream (HC levels 1-2: initStreamHC, resetStreamHC(_fast), setCompressionLevel, loadDictHC/LZ4MID_fillHTable, attach_HC_dictionary with the dictionary context copied / detached / searched in place (LZ4MID_searchExtDict = Model.HcMidDict), setExternalDict, overlap trimming, 2 GB reload, compress_HC_continue(_destSize), saveDictHC (fixes F17, F18), extStateHC(_fastReset)) == lib/lz4hc.c: return value, consumed, bytes, both LZ4MID hash tables, end/prefixStart/dictStart (arena addresses), dictLimit/lowLimit/nextToUpdate, level, dirty, dictCtx null/non-null after EVERY mirrored call; calls at levels >= 3 or searching a dictionary context whose stream is at a level >= 3 (LZ4MID_searchHCDict) are outside the model (state re-imported afterwards)",
                   "Model.FastStream (initStream, resetStream_fast, loadDict/loadDictSlow, attach_dictionary, renormDictT, compress_fast_continue, "
                   "compress_forceExtDict, saveDict, one-shot entry points) == lib/lz4.c: return value, output bytes, currentOffset, tableType, dictSize, "
@@ -22,7 +23,7 @@ RULE = ("op scripts (write bytes / compress block / saveDict / loadDict / reset 
         "state injection moves currentOffset (fast) / dictLimit (HC) next to 0x80000000, 0x40000000, 2^32; "
         "non-trivial = an emitted block with at least one match reaching into the history before the block; distinct = distinct (source, block, history length)")
 TRUSTED = ["hand-written model Model/FastStream.v of the streaming API of lib/lz4.c on top of Model/Fast.v, tied by exact state comparison after every operation",
-           "HC streaming (lz4hc.c) at levels >= 10, across a change of strategy and in the dictionary-context search of levels >= 3 is not modelled in Coq (levels 1-2: Model/HcMidStream.v, levels 3-9: Model/HcChainStream.v): for it the check is the direct oracle only (independent decoder extracted from the Coq block specification + real decoders)",
+           "HC streaming (lz4hc.c) at across a change lz4mid <-> other strategy and in the dictionary-context search of levels >= 3 is not modelled in Coq (levels 1-2: Model/HcMidStream.v, 3-9: Model/HcChainStream.v, 3-12 incl. chain <-> opt: Model/HcOptStream.v): for it the check is the direct oracle only (independent decoder extracted from the Coq block specification + real decoders)",
            "indices beyond 1 GB / 2 GB are reached by state injection into the public LZ4_stream_t / LZ4_streamHC_t (justified for the model by the shift lemma)"]
 ASSUMPTIONS = ["64-bit little-endian target; real addresses >= 2^32 so that NULL + dictSize never aliases a buffer",
                "the caller respects the documented preconditions: the <=64 KB a stream designates as dictionary are unmodified when the next call starts "
@@ -40,9 +41,11 @@ def gen_cases(tier, seed):
     cases = [{"bseed": 17, "kind": "corpus_F17", "arena": 1 << 18, "model": False}, {"bseed": 17, "kind": "corpus_F17", "arena": 1 << 18}]
     reps = {"quick": 1, "search": 3, "thorough": 4}[tier]
     for rep in range(reps):
-        for fam in ("f", "h", "m", "c"):     # m / c = HC restricted to the LZ4MID levels 1-2 / the hash-chain levels 3-9 (mirrored on Model.HcMidStream / Model.HcChainStream throughout)
+        for fam in ("f", "h", "m", "c", "o"):     # m / c = HC restricted to the LZ4MID levels 1-2 / the hash-chain levels 3-9 (mirrored on Model.HcMidStream / Model.HcChainStream throughout)
             for geo in GEOS:
                 for M in MS:
+                    if fam == "o" and M > 1000:
+                        continue      # o = levels 10-12 mixed with hash-chain levels, blocks small enough to be mirrored on Model.HcOptStream
                     if tier == "quick" and fam in ("h", "m", "c") and rng.random() < 0.6:
                         continue
                     big = M >= 20000
@@ -50,7 +53,7 @@ def gen_cases(tier, seed):
                     if fam != "f" and big: nb = min(nb, 6)
                     c = {"bseed": rng.randrange(1 << 48), "kind": "stream_%s_%s" % (fam, geo), "fam": "f" if fam == "f" else "h", "geo": geo, "M": M, "nblocks": nb,
                          "p": {"pinject": 0.5 if M <= 5000 else 0.25, "pdict": 0.25, "pfail": 0.06,
-                               "levels": [1, 2, 2] if fam == "m" else ([3, 4, 6, 9] if not big else [3, 4, 6]) if fam == "c" else sl.HC_LEVELS if not big else sl.HC_LEVELS_CHEAP}}
+                               "levels": [1, 2, 2] if fam == "m" else [10, 11, 12, 12, 4, 9] if fam == "o" else ([3, 4, 6, 9] if not big else [3, 4, 6]) if fam == "c" else sl.HC_LEVELS if not big else sl.HC_LEVELS_CHEAP}}
                     c["arena"] = sl.arena_need(geo, M, nb) + 2 * sl.K64 + 72000 + 4096
                     cases.append(c)
     for i in range({"quick": 6, "search": 10, "thorough": 30}[tier]):
